@@ -351,11 +351,10 @@ func (u *upstream) handleRedirection(req *simpleRequest, resp *RespValue) {
 		u.stats.Counter("moved").Inc()
 		u.MakeRequestToHost(hostAddr, req)
 	case ASK:
-		askingReq := newSimpleRequest(newArray(
-			*newBulkString(ASKING),
-		))
-		u.MakeRequestToHost(hostAddr, askingReq)
-		verifhook.At2("upstream.handleRedirection.asked", u, req)
+		// ASKING only applies to the next command on the connection, so the
+		// writer of that connection sends both back to back; two separate
+		// requests could be interleaved with the traffic of other sessions.
+		req.asking = true
 		u.MakeRequestToHost(hostAddr, req)
 	}
 	u.triggerSlotsRefresh()
@@ -696,6 +695,20 @@ func (c *client) loopWrite() {
 				}
 			}
 			continue
+		}
+
+		if req.asking {
+			req.asking = false
+			askingReq := newSimpleRequest(newStringArray(ASKING))
+			if err = c.enc.Encode(askingReq.Body()); err != nil {
+				goto FAIL
+			}
+			select {
+			case <-c.quit:
+				req.SetResponse(newError(backendExited))
+				return
+			case c.processingReqs <- askingReq:
+			}
 		}
 
 		err = c.enc.Encode(req.Body())
